@@ -283,9 +283,62 @@ def reuse_sweep(aiu, sigs, st):
                              {'mode': 'reuse', 'args': repr(a), 'kwargs': kw})
 
 
+SPECIAL_RESULTS = [None, 0, False, '', (), 0.0]
+
+
+def special_values(aiu, st):
+    """The VALUE computed for a key is whatever the function returned - including None and other falsy
+    values: equal arguments still share one entry; one eviction from a supplied mapping = one recomputation."""
+    for vi, val in enumerate(SPECIAL_RESULTS):
+        for cache_kind in ('default', 'dict'):
+            for mode in ('sequential', 'concurrent'):
+                invoked = []
+                store = {} if cache_kind == 'dict' else None
+
+                async def raw(x, val=val, invoked=invoked):
+                    invoked.append(x)
+                    await asyncio.sleep(0)
+                    return val
+                f = aiu.threadsafe_async_cache(raw) if store is None else aiu.threadsafe_async_cache(raw, cache=store)
+
+                async def main(f=f, mode=mode, store=store):
+                    if mode == 'concurrent':
+                        outs = list(await asyncio.gather(f(1), f(1), f(1)))
+                    else:
+                        outs = [await f(1), await f(1), await f(1)]
+                    n_before = len(invoked)
+                    if store is not None:
+                        store.clear()
+                        outs += [await f(1), await f(1)]
+                    return outs, n_before
+                run = run_main(main)
+                st.executions += 1
+                st.transitions += 5
+                st.sig(('special', vi, cache_kind, mode, repr(run.result), len(invoked)))
+                doc = {'mode': 'special', 'value': repr(val), 'cache': cache_kind, 'calls': mode}
+                if run.error is not None or run.hang or run.result is None:
+                    st.violation('harness_abnormal', f'{doc}: error={run.error!r} hang={run.hang}', doc)
+                    continue
+                outs, n_before = run.result
+                if any(o is not val and o != val for o in outs) or any(type(o) is not type(val) for o in outs):
+                    st.violation('wrong_value', f'function returns {val!r} but callers got {outs!r} ({doc})', doc)
+                if n_before != 1:
+                    st.violation('recomputed_for_equal_arguments',
+                                 f'three {mode} calls with equal arguments whose result is {val!r} invoked the '
+                                 f'function {n_before} times ({cache_kind} cache)', doc)
+                if store is not None and len(invoked) - n_before != 1:
+                    st.violation('eviction_recomputation_count',
+                                 f'after clearing the supplied mapping, two calls (result {val!r}) caused '
+                                 f'{len(invoked) - n_before} recomputations instead of exactly one', doc)
+
+
 def run_case(item):
     from aiuti import asyncio as aiu
     st = Stats()
+    if item[0] == 'special':
+        special_values(aiu, st)
+        st.sample({'mode': 'special result values', 'values': [repr(v) for v in SPECIAL_RESULTS]})
+        return st
     if item[0] == 'reuse':
         sigs = list(signatures(item[1], item[2]))
         reuse_sweep(aiu, sigs, st)
@@ -323,6 +376,7 @@ def main(tier):
         for cache_kind in ('default', 'dict', 'logmap'):
             plan.append(('sweep', maxpos, maxkw, mode, cache_kind, 0, 1))
     plan.append(('reuse', 2, 2))
+    plan.append(('special',))
     n = 4 if tier == 'quick' else 5
     for cache_kind in ('logmap', 'dict'):
         plan += [('evict', n, cache_kind, p, 16) for p in range(16)]
@@ -336,7 +390,8 @@ def main(tier):
               'dicts over <= 3 names in every insertion order, called on one wrapped function forward, reverse, '
               'shuffled and concurrently, for the default cache, a dict and a logging MutableMapping; eviction: '
               f'all sequences of <= {n} ops over {{call, evict, clear}} x 4 colliding signatures on dict/LogMap, all '
-              'call sequences on lru.LRU(1..3); states = distinct (signature, cache kind, verdict) and (program, '
+              'call sequences on lru.LRU(1..3); functions whose result is None / 0 / False / empty (sharing and exactly-one '
+              'recomputation after eviction); states = distinct (signature, cache kind, verdict) and (program, '
               'invocations)'),
         assumptions=['reference key relation: Python ==/hash on (args, frozenset(kwargs.items()))'])
 
@@ -345,7 +400,9 @@ def replay(path):
     from aiuti import asyncio as aiu
     doc = json.load(open(path))['replay']
     st = Stats()
-    if doc.get('mode') == 'evict':
+    if doc.get('mode') == 'special':
+        special_values(aiu, st)
+    elif doc.get('mode') == 'evict':
         run_evict(aiu, tuple(tuple(o) for o in doc['prog']), doc['cache'], st)
     else:
         maxpos = 2
